@@ -951,6 +951,30 @@ for case in [c for c in cases if c["kind"] == "contact" and c["klass"] == "E" an
                                      stored_dtype=np.dtype(sdt).name, image_stored=a_, image_float64=b_))
                 break
 
+# (I1c) HISTORY on the objects: the same Probe (moved in place by translate / rotate, as a scan does), the same grid and the
+#       same velocity imaged again: the image must be that of the NEW pose, i.e. of a fresh probe built at the new positions
+for case in [c for c in cases if c["kind"] == "contact" and c["klass"] == "T" and c["bits"] == (64, 64) and "grid" in c][:(6 if Q else 60)]:
+    fr_ = case["frame"]
+    pr_ = fr_.probe
+    first_ = call_contact(case, fr_, 0, 0.0)
+    move_ = np.array([float(rng.uniform(1e-3, 4e-3)), 0.0, -float(rng.uniform(0.5e-3, 2e-3))])
+    keep_ = (np.array(pr_.locations.coords, copy=True), pr_.pcs.copy())
+    pr_.translate(move_)
+    pr_.rotate(geo.rotation_matrix_y(float(rng.uniform(-0.2, 0.2))))
+    moved_ = call_contact(case, fr_, 0, 0.0)
+    fresh_probe = make_probe(np.asarray(pr_.locations.coords, dtype=np.float64))
+    fresh_ = call_contact(case, frame_with(dict(case, probe=fresh_probe), case["tx"], case["rx"], case["data"]), 0, 0.0)
+    stats["identity_checks"] += 1
+    chk.count(identity="probe_moved_in_place")
+    if images_differ(moved_, fresh_, tol_of(moved_, fresh_, rel=1e-12)):
+        ident_violation("I1c:probe-moved", "contact_tfm with the same Probe object moved in place (translate + rotate) between two calls "
+                        "differs from the image obtained with a fresh probe at the new positions", case,
+                        dict(translation=move_, image_first_pose=first_, image_after_move=moved_, image_fresh_probe=fresh_,
+                             same_as_first_pose=bool(not images_differ(moved_, first_, tol_of(moved_, first_, rel=1e-12)))))
+    # put the probe back for the checks that follow
+    pr_.locations = arim.Points(keep_[0], pr_.locations.name)
+    pr_.pcs = keep_[1]
+
 # (I2) N_hmc * I_hmc == N_fmc * I_fmc on reciprocal data; (I3) expanded HMC == FMC
 n_i2 = 30 if Q else 300
 for i in range(n_i2):
